@@ -1,10 +1,20 @@
 """C16 MSM estimator: constructor parameters, pipeline order, save/load
-agreement, spectrum, implied timescales, ensemble propagation."""
+agreement, spectrum, implied timescales, ensemble propagation.
+
+The constructs are located by ROLE (the call to assigns_to_counts, the call
+of the builder, the dict that is json-dumped, the object that is returned,
+the name that is advanced inside the loop ...) and compared after expansion
+of temporaries (FuncInfo.expand) through match.classify, so that renames,
+named sub-expressions, inverted branches, positional/keyword spelling and
+reordered independent statements do not matter.  A construct that cannot be
+located is reported as analysis-incomplete, never as a violation."""
 import ast
 
-from ..core import (AnalysisIncomplete, call_name, const_value, kwarg,
-                    names_loaded, params, target_names, u, walk_expr,
+from ..cfg import Assume
+from ..core import (AnalysisIncomplete, arg_or_kw, call_name, const_value,
+                    kwarg, names_loaded, params, target_names, u, walk_expr,
                     walk_local)
+from ..match import C, CS, canon, classify
 from ..patterns import (Cmp, assigns_to, calls_in, check_no_arg_mutation,
                         conjuncts, finfo, returns_of, subscript_stores)
 from .msm_common import TM, MS, TS, SD, BU, check_spectrum
@@ -27,88 +37,472 @@ EXPLANATION = (
     'decided.')
 
 
+# ---------------------------------------------------------------------------
+# role / data-flow helpers (candidates for a shared module)
+
+def _last(call):
+    """Last component of the dotted callee name ('scipy.io.mmwrite' -> 'mmwrite')."""
+    if not isinstance(call, ast.Call):
+        return ''
+    if isinstance(call.func, ast.Attribute):
+        return call.func.attr
+    return (call_name(call) or '').split('.')[-1]
+
+
+def _cx(e):
+    return u(canon(e))
+
+
+def _short(x, n=120):
+    t = x if isinstance(x, str) else u(x)
+    return t if len(t) <= n else t[:n - 3] + '...'
+
+
+def peel(fi, e):
+    """Follow a chain of temporaries from a Name use to the ORIGINAL node of
+    its defining expression (top level only; the result is a node of the
+    analysed tree, so reaching definitions can be asked for it)."""
+    d = 0
+    while isinstance(e, ast.Name) and d < 8:
+        v = fi.temp_value(e)
+        if v is None:
+            break
+        e, d = v, d + 1
+    return e
+
+
+def leaf_names(fi, expr, stop=()):
+    """Original Name(Load) nodes the value of `expr` is built from, after
+    looking through temporaries."""
+    out = []
+
+    def go(e, d):
+        for n in walk_expr(e):
+            if isinstance(n, ast.Name) and isinstance(n.ctx, ast.Load):
+                v = fi.temp_value(n) if (d > 0 and n.id not in stop) else None
+                if v is not None:
+                    go(v, d - 1)
+                else:
+                    out.append(n)
+    go(expr, 8)
+    return out
+
+
+def defs_of(fi, n):
+    try:
+        return set(fi.defs_of_use(n))
+    except Exception:
+        return set()
+
+
+def is_param(fi, e, p):
+    """`e` denotes the unmodified parameter p (possibly through temporaries)."""
+    e = peel(fi, e)
+    return isinstance(e, ast.Name) and e.id == p and defs_of(fi, e) == {'PARAM'}
+
+
+def params_intact(fi, expr, names):
+    """Every leaf name of expr that is one of `names` still denotes the parameter."""
+    return all(defs_of(fi, n) == {'PARAM'} for n in leaf_names(fi, expr) if n.id in names)
+
+
+def origins(fi, name_node):
+    """Terminal definition sites {(site, name)} of a Name use, looking through
+    plain copies `a = b` on every path."""
+    out, seen = set(), set()
+
+    def go(n):
+        for d in defs_of(fi, n):
+            if d in ('PARAM', 'UNBOUND'):
+                out.add((d, n.id))
+                continue
+            v = fi.def_value(d, n.id)
+            if isinstance(v, ast.Name):
+                if (id(d), n.id) not in seen:
+                    seen.add((id(d), n.id))
+                    go(v)
+            else:
+                out.add((d, n.id))
+    go(name_node)
+    return out
+
+
+def guard_atoms(fi, stmt):
+    """Atomic conditions known to hold at stmt: the conjuncts of every
+    dominating branch assumption, as (canonical expanded text, polarity).
+    None if a dominating assumption is a disjunction."""
+    out = []
+    for n in fi.cfg.nodes:
+        if isinstance(n, Assume) and fi.cfg.dominates(n, stmt):
+            cj = conjuncts(n.test, n.polarity)
+            if cj is None:
+                return None
+            for c in cj:
+                if isinstance(c, Cmp):
+                    e = ast.Compare(left=fi.expand(c.lhs), ops=[c.op()], comparators=[fi.expand(c.rhs)])
+                    out.append((_cx(e), True))
+                else:
+                    out.append((fi.xu(c[1]), c[2]))
+    return sorted(set(out))
+
+
+def _atoms_text(atoms):
+    return ' and '.join(('' if p else 'not ') + a for a, p in atoms) or 'unconditional'
+
+
+def bind_args(call, callee_params):
+    """{parameter: argument expression} of a call against the callee's
+    positional parameter list; None if it cannot be bound statically."""
+    if any(isinstance(a, ast.Starred) for a in call.args) or any(k.arg is None for k in call.keywords):
+        return None
+    if len(call.args) > len(callee_params):
+        return None
+    b = {callee_params[i]: a for i, a in enumerate(call.args)}
+    for k in call.keywords:
+        b[k.arg] = k.value
+    return b
+
+
+def attr_stores(fn, base):
+    """(stmt, attr, value, index) for every store `base.attr = v`.  Tuple
+    targets are paired with a literal tuple on the right (index None); for a
+    tuple target unpacked from a non-literal value `value` is the whole right
+    side and `index` the position of the attribute in the target."""
+    out = []
+    for s in walk_local(fn):
+        if isinstance(s, ast.Assign):
+            tv = [(t, s.value) for t in s.targets]
+        elif isinstance(s, ast.AnnAssign) and s.value is not None:
+            tv = [(s.target, s.value)]
+        elif isinstance(s, ast.AugAssign):
+            tv = [(s.target, None)]
+        else:
+            continue
+        for t, v in tv:
+            if isinstance(t, ast.Attribute) and isinstance(t.value, ast.Name) and t.value.id == base:
+                out.append((s, t.attr, v, None))
+            elif isinstance(t, (ast.Tuple, ast.List)):
+                paired = isinstance(v, (ast.Tuple, ast.List)) and len(v.elts) == len(t.elts) and \
+                    not any(isinstance(e, ast.Starred) for e in list(v.elts) + list(t.elts))
+                for i, e in enumerate(t.elts):
+                    if isinstance(e, ast.Attribute) and isinstance(e.value, ast.Name) and e.value.id == base:
+                        out.append((s, e.attr, v.elts[i], None) if paired else (s, e.attr, v, i))
+    return out
+
+
+def _opaque_attr_writes(fn, base, plain_methods=()):
+    """The function may set attributes of `base` in a way attr_stores does
+    not see: setattr / __dict__, a method of `base` (other than the known
+    plain callables stored on it), a call that receives `base`, super()."""
+    for n in walk_local(fn):
+        if isinstance(n, ast.Call):
+            if call_name(n) in ('setattr', 'vars', 'object.__setattr__', 'super'):
+                return True
+            if isinstance(n.func, ast.Attribute) and isinstance(n.func.value, ast.Name) and n.func.value.id == base \
+                    and n.func.attr not in plain_methods:
+                return True
+            if any(isinstance(a, ast.Name) and a.id == base for a in list(n.args) + [k.value for k in n.keywords]):
+                return True
+        if isinstance(n, ast.Attribute) and n.attr == '__dict__':
+            return True
+    return False
+
+
+def component_of(fi, value, index, st, call_stmt, call):
+    """Which element of the tuple returned by `call` (evaluated in statement
+    `call_stmt`) does a stored value denote?  int: that element; 'other': the
+    value does not involve the call result at all; None: not recognised.
+    (value, index, st) are as returned by attr_stores."""
+    if value is None:
+        return None
+    if index is not None:
+        e = peel(fi, value)
+        if e is call:
+            return index
+        if isinstance(e, ast.Name) and defs_of(fi, e) == {call_stmt} and isinstance(call_stmt, ast.Assign) \
+                and call_stmt.value is call and len(call_stmt.targets) == 1 and isinstance(call_stmt.targets[0], ast.Name):
+            return index
+        return None if _involves(fi, value, call_stmt, call) else 'other'
+    e = peel(fi, value)
+    if isinstance(e, ast.Name):
+        ds = defs_of(fi, e)
+        if ds == {call_stmt} and isinstance(call_stmt, ast.Assign) and call_stmt.value is call:
+            t = call_stmt.targets[0]
+            if isinstance(t, (ast.Tuple, ast.List)) and not any(isinstance(x, ast.Starred) for x in t.elts):
+                for i, x in enumerate(t.elts):
+                    if isinstance(x, ast.Name) and x.id == e.id:
+                        return i
+            return None
+    if isinstance(e, ast.Subscript) and isinstance(const_value(e.slice), int) and const_value(e.slice) >= 0:
+        b = peel(fi, e.value)
+        if b is call:
+            return const_value(e.slice)
+        if isinstance(b, ast.Name) and defs_of(fi, b) == {call_stmt} and isinstance(call_stmt, ast.Assign) \
+                and call_stmt.value is call and isinstance(call_stmt.targets[0], ast.Name):
+            return const_value(e.slice)
+    return None if _involves(fi, value, call_stmt, call) else 'other'
+
+
+def _involves(fi, value, call_stmt, call):
+    if any(n is call for n in ast.walk(value)):
+        return True
+    for n in leaf_names(fi, value):
+        if call_stmt in defs_of(fi, n):
+            return True
+        if any(d not in ('PARAM', 'UNBOUND') and fi.def_value(d, n.id) is None and call_stmt is d for d in defs_of(fi, n)):
+            return True
+    # a name that is neither a parameter nor defined by a recognisable pure
+    # expression may carry the result through a helper: look one level down
+    for n in leaf_names(fi, value):
+        for d in defs_of(fi, n):
+            if d in ('PARAM', 'UNBOUND'):
+                continue
+            v = fi.def_value(d, n.id)
+            if v is not None and any(call_stmt in defs_of(fi, m) for m in leaf_names(fi, v)):
+                return True
+    return False
+
+
+# ---------------------------------------------------------------------------
+# D1
+
 def d1_constructor(ck, mod):
     rule = 'C16.D1.constructor'
     init = mod.func('MSM.__init__')
     ck.analysed(mod, init)
-    ps = [p for p in params(init) if p != 'self']
+    fi = finfo(mod, init)
+    me = params(init)[0]
+    ps = [p for p in params(init) if p != me]
     stores = {}
-    for s in walk_local(init):
-        if isinstance(s, ast.Assign) and isinstance(s.targets[0], ast.Attribute) and u(s.targets[0].value) == 'self':
-            stores.setdefault(s.targets[0].attr, []).append(s)
+    for s, attr, v, idx in attr_stores(init, me):
+        stores.setdefault(attr, []).append((s, v, idx))
+    opaque = _opaque_attr_writes(init, me)
     for p in ps:
         ss = stores.get(p, [])
         if not ss:
-            ck.bad(rule, mod, init, 'MSM.__init__', 'self.%s' % p,
-                   'constructor parameter `%s` is never stored: the argument is silently dropped' % p)
+            if opaque:
+                ck.missing(rule, 'store of constructor parameter `%s` (attributes are set indirectly)' % p)
+            else:
+                ck.bad(rule, mod, init, 'MSM.__init__', 'self.%s' % p,
+                       'constructor parameter `%s` is never stored: the argument is silently dropped' % p)
             continue
-        for s in ss:
-            v = s.value
-            ok = u(v) == p or (p == 'method' and u(v) in ('method', 'getattr(builders, method)'))
-            ck.check(ok, rule, mod, s, 'MSM.__init__', u(s),
-                     'parameter stored unmodified under its own name',
-                     'self.%s must be the constructor argument `%s`; found `%s` (the argument is ignored)' % (p, p, u(v)))
-    # method resolution branch
-    ms = stores.get('method', [])
-    ok = len(ms) == 2 and {u(s.value) for s in ms} == {'method', 'getattr(builders, method)'}
-    g = mod.parent.get(ms[0]) if ms else None
-    ok = ok and isinstance(g, ast.If) and u(g.test) == 'callable(method)'
-    ck.check(ok, rule + '.method', mod, ms[0] if ms else init, 'MSM.__init__', '; '.join(u(s) for s in ms),
-             'callables kept, names resolved in builders', 'method must be kept if callable, else resolved with getattr(builders, method)')
+        if p == 'method':
+            continue
+        for s, v, idx in ss:
+            if v is None or idx is not None:
+                ck.missing(rule, 'value stored in self.%s not recognised: %s' % (p, _short(s)))
+                continue
+            verdict = classify(fi.expand(v), [p], scope=set(ps))
+            if verdict[0] == 'match' and not is_param(fi, v, p):
+                verdict = ('near', 1, p)     # the parameter was rebound before it is stored
+            ck.decide(verdict, rule, mod, s, 'MSM.__init__', u(s),
+                      'parameter stored unmodified under its own name',
+                      'self.%s must be the constructor argument `%s`; found `%s` (the argument is ignored or altered)' % (p, p, _short(fi.xu(v))))
+    if 'method' in ps and stores.get('method'):
+        _method_cases(ck, rule + '.method', mod, fi, init, stores['method'])
     # fit forwards every attribute
     fit = mod.func('MSM.fit')
     ck.analysed(mod, fit)
-    ac = [c for c in calls_in(fit) if call_name(c) == 'assigns_to_counts']
+    ffi = finfo(mod, fit)
+    fme = params(fit)[0]
+    ac = [c for c in calls_in(fit) if _last(c) == 'assigns_to_counts']
     if len(ac) != 1:
-        ck.missing(rule + '.fit', 'assigns_to_counts call in fit')
+        ck.missing(rule + '.fit', 'assigns_to_counts call in fit (found %d)' % len(ac))
         return
     c = ac[0]
     callee = ck.repo.mod(TM).func('assigns_to_counts')
-    cps = params(callee)
-    bind = {cps[i]: a for i, a in enumerate(c.args)}
-    bind.update({k.arg: k.value for k in c.keywords})
-    want = {'assigns': params(fit)[1], 'lag_time': 'self.lag_time', 'max_n_states': 'self.max_n_states',
-            'sliding_window': 'self.sliding_window'}
+    bind = bind_args(c, params(callee))
+    if bind is None:
+        ck.missing(rule + '.fit', 'arguments of %s cannot be bound statically' % _short(c))
+        return
+    want = {'assigns': params(fit)[1], 'lag_time': '%s.lag_time' % fme, 'max_n_states': '%s.max_n_states' % fme,
+            'sliding_window': '%s.sliding_window' % fme}
     for k, v in want.items():
         got = bind.get(k)
-        ck.check(got is not None and u(got) == v, rule + '.fit', mod, c, 'MSM.fit', '%s=%s' % (k, u(got) if got is not None else 'MISSING (callee default)'),
+        if got is None:
+            ok, txt = False, 'MISSING (callee default)'
+        elif k == 'assigns':
+            ok, txt = is_param(ffi, got, v), ffi.xu(got)
+        else:
+            ok, txt = ffi.xu(got) == v, ffi.xu(got)
+        ck.check(ok, rule + '.fit', mod, c, 'MSM.fit', '%s=%s' % (k, _short(txt)),
                  'fit forwards %s to assigns_to_counts(%s=)' % (v, k),
                  'fit must call assigns_to_counts with %s=%s; it passes %s, so the configured value is '
-                 'not the one used for counting' % (k, v, u(got) if got is not None else 'nothing (callee default)'))
+                 'not the one used for counting' % (k, v, _short(txt) if got is not None else 'nothing (callee default)'))
+
+
+def _method_cases(ck, rule, mod, fi, init, ms):
+    """self.method is the argument if it is callable, else builders.<name>:
+    decided per case over the guarded stores (any branch order, conditional
+    expression or if/else)."""
+    ms = sorted(ms, key=lambda x: (x[0].lineno, x[0].col_offset))
+    test = 'callable(method)'
+    guarded = []
+    for s, v, idx in ms:
+        atoms = guard_atoms(fi, s)
+        if atoms is None or v is None or idx is not None or any(a != test for a, _ in atoms):
+            ck.missing(rule, 'store of self.method under an unrecognised condition: %s [%s]' % (_short(s), _atoms_text(atoms or [])))
+            return
+        guarded.append((s, v, {p for _, p in atoms}))
+    construct = '; '.join(u(s) for s, _, _ in ms)
+    for case, want, okmsg, badmsg in (
+            (True, 'method', 'a callable builder is kept as given',
+             'when `method` is callable it must be stored unchanged as self.method'),
+            (False, 'getattr(builders, method)', 'a builder name is resolved in enspara.msm.builders',
+             'when `method` is not callable it must be resolved with getattr(builders, method)')):
+        live = [(s, v) for s, v, pols in guarded if (not case) not in pols]
+        if not live:
+            ck.bad(rule, mod, init, 'MSM.__init__', construct,
+                   'self.method is not stored when callable(method) is %s: %s' % (case, badmsg))
+            continue
+        s, v = live[-1]
+        e = fi.expand(v)
+        while isinstance(e, ast.IfExp):
+            t = _cx(e.test)
+            if t == test:
+                e = e.body if case else e.orelse
+            elif t == 'not ' + test:
+                e = e.orelse if case else e.body
+            else:
+                break
+        verdict = classify(e, [want], scope={'method', 'builders', 'getattr', 'callable'})
+        if verdict[0] == 'match' and not params_intact(fi, v, {'method'}):
+            verdict = ('far', 0, None)
+        ck.decide(verdict, rule, mod, s, 'MSM.__init__', '%s  [callable(method) is %s]' % (u(s), case), okmsg,
+                  'method must be kept if callable, else resolved with getattr(builders, method): ' + badmsg)
+
+
+# ---------------------------------------------------------------------------
+# D2 (also used for calc_imp_times, and by C11 through d2_pipeline)
+
+def _pipeline(ck, rule, mod, fn, qual, is_builder, trim_atom):
+    """counts -> optional trim -> builder on one data flow.  Returns
+    (fi, builder statement, builder call) or None."""
+    fi = finfo(mod, fn)
+    acs = [c for c in calls_in(fn) if _last(c) == 'assigns_to_counts']
+    trs = [c for c in calls_in(fn) if _last(c) == 'trim_disconnected']
+    bds = [c for c in calls_in(fn) if is_builder(fi, c)]
+    if not (len(acs) == 1 and len(trs) == 1 and len(bds) == 1):
+        ck.missing(rule, 'counts / trim / builder calls in %s (found %d / %d / %d)' % (qual, len(acs), len(trs), len(bds)))
+        return None
+    ac, tr, bd = acs[0], trs[0], bds[0]
+    sa, st, sb = fi.stmt(ac), fi.stmt(tr), fi.stmt(bd)
+    if not (isinstance(sa, ast.Assign) and sa.value is ac and len(sa.targets) == 1 and isinstance(sa.targets[0], ast.Name)):
+        ck.missing(rule, 'the counts are not bound to a name: %s' % _short(sa))
+        return None
+    cn = sa.targets[0].id
+    tt = st.targets[0] if isinstance(st, ast.Assign) and st.value is tr and len(st.targets) == 1 else None
+    if not (isinstance(tt, (ast.Tuple, ast.List)) and len(tt.elts) == 2 and not any(isinstance(e, ast.Starred) for e in tt.elts)):
+        ck.missing(rule, 'the trimming result is not unpacked into (mapping, counts): %s' % _short(st))
+        return None
+    if not isinstance(sb, (ast.Assign, ast.Expr, ast.Return, ast.AnnAssign)):
+        ck.missing(rule, 'statement of the builder call not recognised')
+        return None
+    dom, reach = fi.cfg.dominates, fi.cfg.reachable
+    ok = dom(sa, st) and dom(sa, sb) and reach(st, sb) and not reach(sb, st)
+    ck.check(ok, rule + '.order', mod, sb, qual, '%s ; %s ; %s' % (u(sa)[:40], u(st)[:60], u(sb)[:60]),
+             'counts -> optional trim -> builder', '%s must count, then (optionally) trim, then call the builder' % qual)
+    # --- trimming: iff the trim flag, on the counted matrix
+    tps = params(ck.repo.mod(TM).func('trim_disconnected'))
+    tb = bind_args(tr, tps)
+    targ = tb.get(tps[0]) if tb is not None else None
+    atoms = guard_atoms(fi, st)
+    if targ is None or atoms is None:
+        ck.missing(rule + '.trim', 'argument / condition of the trimming call: %s' % _short(st))
+    else:
+        a = peel(fi, targ)
+        if not isinstance(a, ast.Name):
+            ck.missing(rule + '.trim', 'matrix handed to trim_disconnected is not a variable: %s' % _short(targ))
+        else:
+            src = origins(fi, a)
+            okc = src == {(sa, cn)}
+            okg = atoms == [(trim_atom, True)]
+            ck.check(okc and okg, rule + '.trim', mod, st, qual, u(st),
+                     'trimming iff %s, applied to the counted matrix' % trim_atom,
+                     'trim must be conditional on %s (found: %s) and be applied to the counts produced by assigns_to_counts%s'
+                     % (trim_atom, _atoms_text(atoms), '' if okc else ' (it receives `%s`, which is not that matrix)' % u(a)))
+    # --- the builder receives the counted, possibly trimmed matrix
+    if any(isinstance(x, ast.Starred) for x in bd.args) or any(k.arg is None for k in bd.keywords):
+        ck.missing(rule + '.builder', 'arguments of the builder call: %s' % _short(bd))
+    elif len(bd.args) != 1 or bd.keywords:
+        ck.bad(rule + '.builder', mod, sb, qual, u(sb),
+               'the builder must be called with exactly the counts matrix (builders are arbitrary callables C -> (C, T, pi)); found %s' % _short(bd))
+    else:
+        a = peel(fi, bd.args[0])
+        if not isinstance(a, ast.Name):
+            verdict = classify(fi.expand(bd.args[0]), [cn], scope={cn})
+            ck.decide(verdict if verdict[0] != 'match' else ('far', 0, None), rule + '.builder', mod, sb, qual, u(sb),
+                      '', 'the builder must receive the counted (and possibly trimmed) matrix itself')
+        else:
+            src = origins(fi, a)
+            trimmed = {(st, e.id) for e in tt.elts[1:] if isinstance(e, ast.Name)}
+            ok = bool(src & trimmed) and src <= ({(sa, cn)} | trimmed)
+            why = ''
+            if not ok:
+                if (st, getattr(tt.elts[0], 'id', None)) in src:
+                    why = ' (it receives the MAPPING returned by trim_disconnected)'
+                elif not (src & trimmed):
+                    why = ' (the trimmed counts never reach the builder)'
+                else:
+                    why = ' (it may receive a value that is neither the counts nor the trimmed counts)'
+            ck.check(ok, rule + '.builder', mod, sb, qual, u(sb), 'the builder gets exactly the counted (and possibly trimmed) matrix',
+                     'the builder must be called on the counts produced above, trimmed if requested' + why)
+    return fi, sb, bd
 
 
 def d2_pipeline(ck, mod):
     rule = 'C16.D2.pipeline'
     fit = mod.func('MSM.fit')
-    fi = finfo(mod, fit)
-    ac = [s for s in walk_local(fit) if isinstance(s, ast.Assign) and isinstance(s.value, ast.Call)
-          and call_name(s.value) == 'assigns_to_counts']
-    tr = [s for s in walk_local(fit) if isinstance(s, ast.Assign) and isinstance(s.value, ast.Call)
-          and call_name(s.value) == 'trim_disconnected']
-    bd = [s for s in walk_local(fit) if isinstance(s, ast.Assign) and isinstance(s.value, ast.Call)
-          and u(s.value.func) == 'self.method']
-    if not (len(ac) == 1 and len(tr) == 1 and len(bd) == 1):
-        ck.missing(rule, 'counts / trim / builder statements in fit')
+    ck.analysed(mod, fit)
+    me = params(fit)[0]
+    r = _pipeline(ck, rule, mod, fit, 'MSM.fit', lambda fi, c: fi.xu(c.func) == '%s.method' % me, '%s.trim' % me)
+    if r is None:
         return
-    cn = u(ac[0].targets[0])
-    ok = fi.cfg.dominates(ac[0], tr[0]) and fi.cfg.dominates(ac[0], bd[0]) and fi.cfg.reachable(tr[0], bd[0])
-    ck.check(ok, rule + '.order', mod, bd[0], 'MSM.fit', '%s ; %s ; %s' % (u(ac[0])[:40], u(tr[0])[:60], u(bd[0])[:60]),
-             'counts -> optional trim -> builder', 'fit must count, then (optionally) trim, then call the builder')
-    g = mod.parent.get(tr[0])
-    ok = isinstance(g, ast.If) and u(g.test) == 'self.trim' and u(tr[0].value.args[0]) == cn and \
-        isinstance(tr[0].targets[0], ast.Tuple) and u(tr[0].targets[0].elts[1]) == cn
-    ck.check(ok, rule + '.trim', mod, tr[0], 'MSM.fit', u(tr[0]), 'trimming iff self.trim, and the trimmed counts replace the counts',
-             'trim must be conditional on self.trim and rebind the counts that go to the builder')
-    # builder receives the (possibly trimmed) counts: defs = {ac, tr}
-    arg = bd[0].value.args[0] if bd[0].value.args else None
-    ok = isinstance(arg, ast.Name) and arg.id == cn and fi.defs_of_use(arg) == {ac[0], tr[0]} and not bd[0].value.keywords \
-        and len(bd[0].value.args) == 1
-    ck.check(ok, rule + '.builder', mod, bd[0], 'MSM.fit', u(bd[0]), 'the builder gets exactly the counted (and possibly trimmed) matrix',
-             'the builder must be called as self.method(tcounts) on the counts produced above')
-    t = bd[0].targets[0]
-    ok = isinstance(t, ast.Tuple) and [u(e) for e in t.elts] == ['self.tcounts_', 'self.tprobs_', 'self.eq_probs_']
-    ck.check(ok, rule + '.builder', mod, bd[0], 'MSM.fit', u(t), 'builder result (C, T, pi) stored in order',
-             'builders return (counts, tprobs, eq_probs): they must be stored as tcounts_, tprobs_, eq_probs_ in that order')
+    fi, sb, bd = r
+    # builder result (C, T, pi) -> tcounts_, tprobs_, eq_probs_
+    stores = {}
+    for s, attr, v, idx in attr_stores(fit, me):
+        stores.setdefault(attr, []).append((s, v, idx))
+    opaque = _opaque_attr_writes(fit, me, plain_methods=('method',))
+    for i, attr in enumerate(('tcounts_', 'tprobs_', 'eq_probs_')):
+        ss = stores.get(attr, [])
+        if not ss:
+            if opaque:
+                ck.missing(rule + '.builder', 'store of %s.%s in fit' % (me, attr))
+            else:
+                ck.bad(rule + '.builder', mod, sb, 'MSM.fit', 'self.%s' % attr, 'fit never stores self.%s (element %d of the builder result)' % (attr, i))
+            continue
+        for s, v, idx in ss:
+            comp = component_of(fi, v, idx, s, sb, bd)
+            if comp is None:
+                ck.missing(rule + '.builder', 'value stored in self.%s not traced to the builder result: %s' % (attr, _short(s)))
+                continue
+            ck.check(comp == i, rule + '.builder', mod, s, 'MSM.fit', 'self.%s <- %s' % (attr, _short(s, 100)),
+                     'builder result (C, T, pi) stored in order: self.%s is element %d' % (attr, i),
+                     'builders return (counts, tprobs, eq_probs): self.%s must be element %d of the result of self.method(...); it is %s'
+                     % (attr, i, 'a value that does not come from the builder (`%s`)' % _short(fi.xu(v) if idx is None else u(v), 60)
+                        if comp == 'other' else 'element %d' % comp))
+
+
+# ---------------------------------------------------------------------------
+# D3
+
+_SERIALISERS = {'mmwrite', 'mmread', 'savetxt', 'loadtxt', 'genfromtxt', 'save', 'load', 'savez', 'dump', 'dumps', 'loads',
+                'tofile', 'fromfile', 'write', 'read', 'writerows', 'save_npz', 'load_npz', 'to_csv', 'read_csv'}
+
+
+def _pair_verdict(calls, accept):
+    """'match' if one of the calls is an accepted (de)serialiser, 'near' if a
+    different known one is used instead, 'far' otherwise."""
+    if any(accept(c) for c in calls):
+        return 'match'
+    if any(_last(c) in _SERIALISERS for c in calls):
+        return 'near'
+    return 'far'
+
+
+def _worst(*vs):
+    return 'near' if 'near' in vs else ('far' if 'far' in vs else 'match')
 
 
 def d3_saveload(ck, mod):
@@ -116,108 +510,426 @@ def d3_saveload(ck, mod):
     save, load = mod.func('MSM.save'), mod.func('MSM.load')
     ck.analysed(mod, save)
     ck.analysed(mod, load)
-    fd = [s for s in assigns_to(save, 'fname_dict') if isinstance(s, ast.Assign) and isinstance(s.value, ast.Dict)]
-    if not fd:
-        ck.missing(rule, 'fname_dict in save')
+    fs, fl = finfo(mod, save), finfo(mod, load)
+    me = params(save)[0]
+
+    # ---- save: the manifest dict is the dict literal that is json-dumped
+    fd = None
+    for c in calls_in(save):
+        if call_name(c) in ('json.dump', 'json.dumps') and c.args and isinstance(c.args[0], ast.Name):
+            ds = [d for d in defs_of(fs, c.args[0]) if isinstance(d, ast.Assign) and isinstance(fs.def_value(d, c.args[0].id), ast.Dict)]
+            if len(ds) == 1 and len(defs_of(fs, c.args[0])) == 1:
+                fd = ds[0]
+    if fd is None:
+        cand = [s for s in walk_local(save) if isinstance(s, ast.Assign) and isinstance(s.value, ast.Dict) and len(s.targets) == 1
+                and isinstance(s.targets[0], ast.Name) and s.value.keys and all(isinstance(const_value(k), str) for k in s.value.keys)]
+        cand = [s for s in cand if s.targets[0].id == 'fname_dict'] or cand
+        if len(cand) != 1:
+            ck.missing(rule, 'the manifest dict (key -> file name) in save')
+            return
+        fd = cand[0]
+    D = fd.targets[0].id
+    if not all(isinstance(const_value(k), str) for k in fd.value.keys):
+        ck.missing(rule, 'manifest dict with non-literal keys')
         return
-    keys = {k.value for k in fd[0].value.keys}
-    written = {}
+    keys = {k.value for k in fd.value.keys}
+    helpers = set()
+    for n in walk_local(save):
+        if isinstance(n, ast.FunctionDef) and len(params(n)) == 1:
+            p = params(n)[0]
+            if any(isinstance(x, ast.Subscript) and isinstance(x.value, ast.Name) and x.value.id == D and
+                   isinstance(x.slice, ast.Name) and x.slice.id == p for r in ast.walk(n) if isinstance(r, ast.Return) and r.value is not None
+                   for x in ast.walk(r.value)):
+                helpers.add(n.name)
+
+    def path_key(expr):
+        if expr is None:
+            return None
+        for n in ast.walk(fs.expand(expr)):
+            if isinstance(n, ast.Subscript) and isinstance(n.value, ast.Name) and n.value.id == D and isinstance(const_value(n.slice), str):
+                return const_value(n.slice)
+            if isinstance(n, ast.Call) and isinstance(n.func, ast.Name) and n.func.id in helpers:
+                a = n.args[0] if n.args else (n.keywords[0].value if n.keywords else None)
+                if isinstance(const_value(a), str):
+                    return const_value(a)
+        return None
+
+    written = {}        # key -> (anchor node, [writer calls])
     for w in walk_local(save):
         if isinstance(w, ast.With):
             for item in w.items:
                 ce = item.context_expr
-                if isinstance(ce, ast.Call) and call_name(ce) == 'open' and isinstance(ce.args[0], ast.Call) \
-                        and call_name(ce.args[0]) == 'tmp_fname':
-                    key = const_value(ce.args[0].args[0])
+                if isinstance(ce, ast.Call) and _last(ce) == 'open':
+                    key = path_key(arg_or_kw(ce, 0, 'file'))
+                    if key is None:
+                        continue
+                    h = item.optional_vars.id if isinstance(item.optional_vars, ast.Name) else None
                     body = [c for s in w.body for c in ast.walk(s) if isinstance(c, ast.Call)]
-                    written[key] = (w, body, const_value(ce.args[1]) if len(ce.args) > 1 else 'r')
-    read = {}
-    for s in walk_local(load):
-        for x in ast.walk(s) if isinstance(s, (ast.Assign, ast.With)) else []:
-            if isinstance(x, ast.Subscript) and u(x.value) == 'fname_dict' and isinstance(x.slice, ast.Constant):
-                read.setdefault(x.slice.value, s)
-    ck.check(set(written) == keys, rule + '.keys', mod, fd[0], 'MSM.save', 'declared %s written %s' % (sorted(keys), sorted(written)),
+                    uses = [c for c in body if h and any(isinstance(a, ast.Name) and a.id == h
+                                                         for a in list(c.args) + [k.value for k in c.keywords])]
+                    ent = written.setdefault(key, (w, []))
+                    ent[1].extend(uses)
+        elif isinstance(w, ast.Call) and _last(w) != 'open' and not (isinstance(w.func, ast.Name) and w.func.id in helpers):
+            for a in list(w.args) + [k.value for k in w.keywords]:
+                key = path_key(a)
+                if key is not None and not any(isinstance(x, ast.Call) and _last(x) == 'open' for x in ast.walk(a)):
+                    written.setdefault(key, (w, []))[1].append(w)
+
+    # ---- load: the manifest is what json.load returns; key-preserving re-mappings of it count too
+    jl = [c for c in calls_in(load) if call_name(c) in ('json.load', 'json.loads')]
+    sj = fl.stmt(jl[0]) if len(jl) == 1 else None
+    if not (isinstance(sj, ast.Assign) and len(sj.targets) == 1 and isinstance(sj.targets[0], ast.Name)):
+        ck.missing(rule, 'manifest read with json.load in load')
+        return
+    PM = {sj.targets[0].id}
+    grew = True
+    while grew:
+        grew = False
+        for s in walk_local(load):
+            if not (isinstance(s, ast.Assign) and len(s.targets) == 1 and isinstance(s.targets[0], ast.Name)) or s.targets[0].id in PM:
+                continue
+            v = s.value
+            key = gen = None
+            if isinstance(v, ast.DictComp) and len(v.generators) == 1:
+                key, gen = v.key, v.generators[0]
+            elif isinstance(v, ast.Call) and call_name(v) == 'dict' and len(v.args) == 1 and isinstance(v.args[0], (ast.GeneratorExp, ast.ListComp)) \
+                    and len(v.args[0].generators) == 1 and isinstance(v.args[0].elt, ast.Tuple) and len(v.args[0].elt.elts) == 2:
+                key, gen = v.args[0].elt.elts[0], v.args[0].generators[0]
+            if gen is None or gen.ifs:
+                continue
+            it, tg = gen.iter, gen.target
+            if isinstance(it, ast.Call) and isinstance(it.func, ast.Attribute) and it.func.attr == 'items' and \
+                    isinstance(it.func.value, ast.Name) and it.func.value.id in PM and isinstance(tg, ast.Tuple) and \
+                    len(tg.elts) == 2 and isinstance(key, ast.Name) and u(key) == u(tg.elts[0]):
+                PM.add(s.targets[0].id)
+                grew = True
+    read = {}           # key -> [Subscript nodes]
+    for x in walk_local(load):
+        if isinstance(x, ast.Subscript) and isinstance(x.value, ast.Name) and x.value.id in PM and isinstance(const_value(x.slice), str) \
+                and isinstance(x.ctx, ast.Load):
+            read.setdefault(const_value(x.slice), []).append(x)
+
+    ck.check(set(written) == keys, rule + '.keys', mod, fd, 'MSM.save', 'declared %s written %s' % (sorted(keys), sorted(written)),
              'every declared file is written', 'save declares files it does not write (or vice versa): %s' % sorted(keys ^ set(written)))
     ck.check(set(read) == keys, rule + '.keys', mod, load, 'MSM.load', 'read %s' % sorted(read),
              'load reads exactly the files save writes', 'load and save disagree on the file keys: %s' % sorted(keys ^ set(read)))
-    pairs = {'tcounts_': ('mmwrite', 'mmread'), 'tprobs_': ('mmwrite', 'mmread'),
-             'eq_probs_': ('np.savetxt', 'np.loadtxt'), 'config': ('pickle.dump', 'pickle.load'),
-             'mapping_': ('self.mapping_.write', 'TrimMapping.load')}
-    for k, (wfn, rfn) in pairs.items():
+
+    # ---- the object that load returns and how it is built
+    rets = [r for r in returns_of(load) if r.value is not None]
+    R = cons = cfgname = None
+    if len(rets) == 1 and isinstance(peel(fl, rets[0].value), ast.Name):
+        rn = peel(fl, rets[0].value)
+        ds = defs_of(fl, rn)
+        if len(ds) == 1:
+            d = next(iter(ds))
+            v = fl.def_value(d, rn.id) if d not in ('PARAM', 'UNBOUND') else None
+            if isinstance(v, ast.Call):
+                R, cons = rn.id, v
+    if cons is None:
+        ck.missing(rule + '.config', 'the object returned by load is not built by a single constructor call')
+    else:
+        cls = params(load)[0]
+        star = [k for k in cons.keywords if k.arg is None]
+        ok = call_name(cons) in ('MSM', cls) and len(star) == 1 and not cons.args and len(cons.keywords) == 1
+        ck.check(ok, rule + '.config', mod, cons, 'MSM.load', u(cons) if not ok else 'MSM(**config)',
+                 'model rebuilt from the saved configuration', 'load must rebuild the model as MSM(**config)')
+        if ok:
+            cfgname = peel(fl, star[0].value)
+
+    def consumers(x):
+        """Calls that consume the file named by the manifest read x: the call
+        the path is an argument of, or - for open(...) as h - the calls in
+        the with body that take h."""
+        n, call = x, None
+        while n is not None and not isinstance(n, ast.stmt):
+            n = mod.parent.get(n)
+            if isinstance(n, ast.Call):
+                call = n
+                break
+        if call is None:
+            return None, []
+        if _last(call) != 'open':
+            return fl.stmt(call), [call]
+        w = fl.stmt(call)
+        if isinstance(w, ast.With):
+            for item in w.items:
+                if item.context_expr is call and isinstance(item.optional_vars, ast.Name):
+                    h = item.optional_vars.id
+                    return w, [c for s in w.body for c in ast.walk(s) if isinstance(c, ast.Call) and
+                               any(isinstance(a, ast.Name) and a.id == h for a in list(c.args) + [k.value for k in c.keywords])]
+        return w, []
+
+    data_forms = lambda attr: [attr, 'np.array(%s)' % attr, 'np.asarray(%s)' % attr, '%s.copy()' % attr,
+                               'np.ascontiguousarray(%s)' % attr, 'np.asanyarray(%s)' % attr]
+    pairs = {'tcounts_': ('mmwrite', 'mmread', 1, 'a'), 'tprobs_': ('mmwrite', 'mmread', 1, 'a'),
+             'eq_probs_': ('np.savetxt', 'np.loadtxt', 1, 'X'), 'config': ('pickle.dump', 'pickle.load', 0, 'obj'),
+             'mapping_': ('self.mapping_.write', 'TrimMapping.load', None, None)}
+    for k, (wfn, rfn, dpos, dkw) in pairs.items():
+        attr = '%s.%s' % (me, k)
+        wl, rl = wfn.split('.')[-1], rfn.split('.')[-1]
+        # writer
         w = written.get(k)
-        okw = w is not None and any(call_name(c) == wfn for c in w[1])
-        attr = 'self.%s' % k if k != 'config' else 'self.config'
-        if okw and k != 'mapping_':
-            wc = [c for c in w[1] if call_name(c) == wfn][0]
-            okw = any(attr in u(a) for a in wc.args)
-        rs = read.get(k)
-        okr = rs is not None and any(isinstance(c, ast.Call) and call_name(c) == rfn for c in ast.walk(rs))
-        if okr and k != 'config':
-            okr = isinstance(rs, ast.Assign) and u(rs.targets[0]) == 'msm.%s' % k
-        ck.check(okw and okr, rule + '.pairs', mod, w[0] if w else save, 'MSM.save/load', '%s: %s <-> %s' % (k, wfn, rfn),
-                 'matching writer/reader for %s, same attribute on both sides' % k,
-                 '`%s` must be written with %s(%s) and read back with %s into msm.%s' % (k, wfn, attr, rfn, k))
-    # precision
+        vw = 'far'
+        if w is not None:
+            if k == 'mapping_':
+                acc = lambda c: isinstance(c.func, ast.Attribute) and c.func.attr in ('write', 'save') and fs.xu(c.func.value) == attr
+            else:
+                acc = lambda c: _last(c) == wl
+            vw = _pair_verdict(w[1], acc)
+            if vw == 'match' and k != 'mapping_':
+                wc = [c for c in w[1] if acc(c)][0]
+                data = arg_or_kw(wc, dpos, dkw)
+                if data is None:
+                    vw = 'far'
+                else:
+                    vw = classify(fs.expand(data), data_forms(attr), scope={me})[0]
+        # reader
+        vr = 'far'
+        for x in read.get(k, []):
+            st, cs = consumers(x)
+            if k == 'mapping_':
+                acc = lambda c: isinstance(c.func, ast.Attribute) and c.func.attr in ('load', 'read') and \
+                    u(c.func.value).split('.')[-1] == 'TrimMapping'
+            else:
+                acc = lambda c: _last(c) == rl and (k != 'config' or (call_name(c) or '').startswith('pickle.'))
+            v1 = _pair_verdict(cs, acc)
+            if v1 == 'match':
+                rc = [c for c in cs if acc(c)][0]
+                rs = fl.stmt(rc)
+                if k == 'config':
+                    # the unpickled dict is what the constructor is called with
+                    if cfgname is None:
+                        v1 = 'far'
+                    elif isinstance(cfgname, ast.Name) and isinstance(rs, ast.Assign) and defs_of(fl, cfgname) == {rs} \
+                            and peel(fl, rs.value) is rc:
+                        v1 = 'match'
+                    elif cfgname is rc:
+                        v1 = 'match'
+                    else:
+                        v1 = 'near' if isinstance(cfgname, ast.Name) and all(
+                            d in ('PARAM', 'UNBOUND') or fl.def_value(d, cfgname.id) is not None for d in defs_of(fl, cfgname)) else 'far'
+                else:
+                    tg = [(a, v) for s, a, v, idx in attr_stores(load, R) if s is rs and idx is None] if R else []
+                    if R is None or not isinstance(rs, ast.Assign):
+                        v1 = 'far'
+                    elif not tg:
+                        v1 = 'far' if not isinstance(rs.targets[0], ast.Attribute) else 'near'
+                    else:
+                        v1 = 'match' if any(a == k and peel(fl, v) is rc for a, v in tg) else 'near'
+            vr = v1
+            if v1 != 'match':
+                break
+        ck.decide(_worst(vw, vr), rule + '.pairs', mod, w[0] if w else save, 'MSM.save/load', '%s: %s <-> %s' % (k, wfn, rfn),
+                  'matching writer/reader for %s, same attribute on both sides' % k,
+                  '`%s` must be written with %s(%s) and read back with %s into msm.%s (writer: %s, reader: %s)' % (
+                      k, wfn, attr, rfn, k, {'match': 'ok', 'near': 'differs', 'far': 'not recognised'}[vw],
+                      {'match': 'ok', 'near': 'differs', 'far': 'not recognised'}[vr]))
+    # ---- precision of the probabilities
     w = written.get('tprobs_')
     if w:
-        wc = [c for c in w[1] if call_name(c) == 'mmwrite']
-        pr = const_value(kwarg(wc[0], 'precision')) if wc else None
-        ck.check(isinstance(pr, int) and pr >= 17, rule + '.precision', mod, wc[0] if wc else w[0], 'MSM.save', u(wc[0]) if wc else 'mmwrite',
-                 'probabilities written with %s significant digits (>= 17 round-trips float64)' % pr,
-                 'float64 needs 17 significant digits to round-trip through text; tprobs are written with precision=%s' % pr)
-    # config covers __init__ parameters
+        wc = [c for c in w[1] if _last(c) == 'mmwrite']
+        pe = kwarg(wc[0], 'precision') if wc else None
+        if pe is None and wc and len(wc[0].args) > 4:
+            pe = wc[0].args[4]
+        pr = const_value(fs.expand(pe)) if pe is not None else None
+        if wc and pe is not None and pr is None:
+            ck.missing(rule + '.precision', 'precision of the probabilities is not a literal: %s' % _short(pe))
+        elif wc:
+            ck.check(isinstance(pr, int) and pr >= 17, rule + '.precision', mod, wc[0], 'MSM.save', 'mmwrite(tprobs_) precision=%s' % pr,
+                     'probabilities written with %s significant digits (>= 17 round-trips float64)' % pr,
+                     'float64 needs 17 significant digits to round-trip through text; tprobs are written with precision=%s' % pr)
+    # ---- config covers __init__ parameters
     cfg = mod.func('MSM.config')
-    r = returns_of(cfg)
-    init_ps = [p for p in params(mod.func('MSM.__init__')) if p != 'self']
-    ok = len(r) == 1 and isinstance(r[0].value, ast.Dict)
-    ckeys = {k.value: u(v) for k, v in zip(r[0].value.keys, r[0].value.values)} if ok else {}
-    for p in init_ps:
-        ck.check(ckeys.get(p) == 'self.%s' % p, rule + '.config', mod, r[0] if r else cfg, 'MSM.config', "'%s': %s" % (p, ckeys.get(p)),
-                 'constructor parameter %s is part of the saved configuration' % p,
-                 'config lacks constructor parameter `%s` (or maps it to another attribute): MSM(**config) '
-                 'after load resets it to its default' % p)
-    extra = set(ckeys) - set(init_ps)
-    ck.check(not extra, rule + '.config', mod, r[0] if r else cfg, 'MSM.config', 'extra keys %s' % sorted(extra),
-             'every config key is a constructor parameter', 'config has keys that __init__ does not accept: MSM(**config) raises TypeError')
-    mk = [c for c in calls_in(load) if call_name(c) == 'MSM' and any(k.arg is None for k in c.keywords)]
-    ck.check(len(mk) == 1 and u(mk[0]) == 'MSM(**config)', rule + '.config', mod, mk[0] if mk else load, 'MSM.load',
-             u(mk[0]) if mk else 'MSM(**config)', 'model rebuilt from the saved configuration', 'load must rebuild the model as MSM(**config)')
+    ck.analysed(mod, cfg)
+    fc = finfo(mod, cfg)
+    cme = params(cfg)[0]
+    r = [x for x in returns_of(cfg) if x.value is not None]
+    init_ps = params(mod.func('MSM.__init__'))[1:]
+    ckeys = None
+    if len(r) == 1:
+        e = peel(fc, r[0].value)
+        if isinstance(e, ast.Dict) and all(isinstance(const_value(k), str) for k in e.keys):
+            ckeys = {const_value(k): fc.xu(v) for k, v in zip(e.keys, e.values)}
+        elif isinstance(e, ast.Call) and call_name(e) == 'dict' and not e.args and all(k.arg for k in e.keywords):
+            ckeys = {k.arg: fc.xu(k.value) for k in e.keywords}
+    if ckeys is None:
+        ck.missing(rule + '.config', 'MSM.config does not return a dict literal')
+    else:
+        for p in init_ps:
+            ck.check(ckeys.get(p) == '%s.%s' % (cme, p), rule + '.config', mod, r[0], 'MSM.config', "'%s': %s" % (p, ckeys.get(p)),
+                     'constructor parameter %s is part of the saved configuration' % p,
+                     'config lacks constructor parameter `%s` (or maps it to another attribute): MSM(**config) '
+                     'after load resets it to its default' % p)
+        extra = set(ckeys) - set(init_ps)
+        ck.check(not extra, rule + '.config', mod, r[0], 'MSM.config', 'extra keys %s' % sorted(extra),
+                 'every config key is a constructor parameter', 'config has keys that __init__ does not accept: MSM(**config) raises TypeError')
     mapping_rules(ck)
 
+
+# ---------------------------------------------------------------------------
+# D5
 
 def d5_timescales(ck):
     rule = 'C16.D5.timescales'
     mod = ck.repo.mod(TS)
     fn = mod.func('calc_imp_times')
     ck.analysed(mod, fn)
+    Q = 'calc_imp_times'
+    ps = params(fn)
+    if len(ps) < 7:
+        ck.missing(rule, 'signature calc_imp_times(assigns, lag_time, n_states, n_times, method, sliding_window, trim)')
+        return
+    assigns, lag, nst, ntm, meth, slw, trim = ps[:7]
+    # counts -> optional trim -> builder (same rule as MSM.fit)
+    r = _pipeline(ck, rule + '.pipeline', mod, fn, Q, lambda fi, c: is_param(fi, c.func, meth), trim)
     fi = finfo(mod, fn)
-    st = [s for s in assigns_to(fn, 'imp_times') if isinstance(s, ast.Assign)]
-    ok = len(st) == 1 and u(st[0].value) in ('-lag_time / np.log(e_vals[1:])',)
-    ck.check(ok, rule + '.formula', mod, st[0] if st else fn, 'calc_imp_times', u(st[0]) if st else 'imp_times',
-             't_k = -lag / log(lambda_k) for k >= 1 (stationary eigenvalue skipped)',
-             'implied timescales must be -lag_time / np.log(e_vals[1:])')
-    es = [c for c in calls_in(fn) if call_name(c) == 'eigenspectrum']
-    ok = len(es) == 1 and u(es[0].args[0]) == 'T' and u(kwarg(es[0], 'n_eigs')) == 'n_times'
-    inc = [s for s in walk_local(fn) if isinstance(s, ast.AugAssign) and u(s.target) == 'n_times' and const_value(s.value) == 1
-           and isinstance(s.op, ast.Add)]
-    ok = ok and len(inc) == 1 and fi.cfg.dominates(inc[0], fi.stmt(es[0]))
-    ck.check(ok, rule + '.count', mod, es[0] if es else fn, 'calc_imp_times', '%s ; %s' % (u(inc[0]) if inc else '?', u(es[0]) if es else '?'),
-             'one extra eigenvalue is requested for the stationary mode', 'n_times + 1 eigenvalues of T must be requested')
-    ac = [c for c in calls_in(fn) if call_name(c) == 'assigns_to_counts']
-    ok = len(ac) == 1 and {k.arg: u(k.value) for k in ac[0].keywords} == {
-        'max_n_states': 'n_states', 'lag_time': 'lag_time', 'sliding_window': 'sliding_window'} and u(ac[0].args[0]) == 'assigns'
-    ck.check(ok, rule + '.pipeline', mod, ac[0] if ac else fn, 'calc_imp_times', u(ac[0]) if ac else '?',
-             'counts use the same lag, window and state count', 'assigns_to_counts must receive lag_time, sliding_window and n_states')
-    bt = [s for s in walk_local(fn) if isinstance(s, ast.Assign) and isinstance(s.value, ast.Call) and u(s.value.func) == 'method']
-    ok = len(bt) == 1 and isinstance(bt[0].targets[0], ast.Tuple) and u(bt[0].targets[0].elts[1]) == 'T' and u(bt[0].value.args[0]) == 'C'
-    ck.check(ok, rule + '.pipeline', mod, bt[0] if bt else fn, 'calc_imp_times', u(bt[0]) if bt else '?',
-             'T is the second element of the builder result', 'builders return (C, T, pi): T must be taken from position 1')
+    # the counting call receives the same lag, window and state count
+    ac = [c for c in calls_in(fn) if _last(c) == 'assigns_to_counts']
+    bind = bind_args(ac[0], params(ck.repo.mod(TM).func('assigns_to_counts'))) if len(ac) == 1 else None
+    if bind is None:
+        ck.missing(rule + '.pipeline', 'assigns_to_counts call in calc_imp_times')
+    else:
+        want = {'assigns': assigns, 'lag_time': lag, 'max_n_states': nst, 'sliding_window': slw}
+        bad = [k for k, p in want.items() if bind.get(k) is None or not is_param(fi, bind[k], p)]
+        ck.check(not bad and set(bind) == set(want), rule + '.pipeline', mod, ac[0], Q, u(ac[0]),
+                 'counts use the same lag, window and state count',
+                 'assigns_to_counts must receive assigns, lag_time, sliding_window and max_n_states=n_states (wrong: %s)' % ', '.join(
+                     '%s=%s' % (k, _short(fi.xu(bind[k]), 40) if bind.get(k) is not None else 'MISSING') for k in bad or sorted(set(bind) ^ set(want))))
+    # eigenspectrum(T, n_eigs = n_times + 1)
+    es = [c for c in calls_in(fn) if _last(c) == 'eigenspectrum']
+    if len(es) != 1:
+        ck.missing(rule + '.count', 'eigenspectrum call in calc_imp_times (found %d)' % len(es))
+        return
+    e = es[0]
+    se = fi.stmt(e)
+    eps = params(ck.repo.mod(TM).func('eigenspectrum'))
+    eb = bind_args(e, eps)
+    if eb is None or len(eps) < 2 or eps[0] not in eb:
+        ck.missing(rule + '.count', 'arguments of %s' % _short(e))
+        return
+    targ, narg = eb.get(eps[0]), eb.get(eps[1])
+    if r is not None:
+        _, sb, bd = r
+        comp = component_of(fi, targ, None, se, sb, bd)
+        if comp is None:
+            ck.missing(rule + '.pipeline', 'matrix handed to eigenspectrum not traced to the builder result: %s' % _short(targ))
+        else:
+            ck.check(comp == 1, rule + '.pipeline', mod, sb, Q, '%s ; %s' % (_short(sb, 60), _short(e, 60)),
+                     'T is the second element of the builder result',
+                     'builders return (C, T, pi): the matrix decomposed must be taken from position 1 (found: %s)' % (
+                         'a value that is not the builder result' if comp == 'other' else 'position %d' % comp))
+    # one extra eigenvalue: n_eigs is n_times + 1
+    verdict, shown = 'far', u(narg) if narg is not None else 'MISSING'
+    if narg is None:
+        verdict = 'near'
+    else:
+        n = peel(fi, narg)
+        if isinstance(n, ast.Name) and n.id == ntm:
+            ds = defs_of(fi, n)
+            if ds == {'PARAM'}:
+                verdict = 'near'
+            elif len(ds) == 1 and isinstance(next(iter(ds)), ast.AugAssign):
+                a = next(iter(ds))
+                shown = '%s ; %s' % (u(a), u(e))
+                if fi.rd.defs_at(a, ntm) == {'PARAM'}:
+                    verdict = 'match' if isinstance(a.op, ast.Add) and const_value(fi.expand(a.value)) == 1 else 'near'
+            elif len(ds) == 1 and isinstance(next(iter(ds)), ast.Assign):
+                a = next(iter(ds))
+                shown = '%s ; %s' % (u(a), u(e))
+                v = fi.def_value(a, ntm)
+                if v is not None and all(fi.rd.defs_at(a, m.id) == {'PARAM'} for m in walk_expr(v) if isinstance(m, ast.Name) and m.id == ntm):
+                    verdict = classify(v, ['%s + 1' % ntm, '1 + %s' % ntm], scope={ntm})[0]
+        else:
+            verdict = classify(fi.expand(narg), ['%s + 1' % ntm, '1 + %s' % ntm], scope={ntm})[0]
+            if verdict == 'match' and not params_intact(fi, narg, {ntm}):
+                verdict = 'far'
+    ck.decide(verdict, rule + '.count', mod, e, Q, shown,
+              'one extra eigenvalue is requested for the stationary mode', 'n_times + 1 eigenvalues of T must be requested')
+    # formula on the returned value
+    rets = [x for x in returns_of(fn) if x.value is not None]
+    tt = se.targets[0] if isinstance(se, ast.Assign) and se.value is e and len(se.targets) == 1 else None
+    if len(rets) != 1 or not (isinstance(tt, (ast.Tuple, ast.List)) and len(tt.elts) == 2 and isinstance(tt.elts[0], ast.Name)):
+        ck.missing(rule + '.formula', 'returned value / unpacking of eigenspectrum in calc_imp_times')
+    else:
+        E = tt.elts[0].id
+        val = rets[0].value
+        anchor = fi.stmt(peel(fi, val)) if isinstance(val, ast.Name) and peel(fi, val) is not val else rets[0]
+        forms = ['-%s / np.log(%s[1:])' % (lag, E), '-(%s / np.log(%s[1:]))' % (lag, E), '%s / -np.log(%s[1:])' % (lag, E),
+                 '-1 * %s / np.log(%s[1:])' % (lag, E), '-1.0 * %s / np.log(%s[1:])' % (lag, E), '%s / np.log(%s[1:]) * -1' % (lag, E),
+                 '-%s / np.log(%s)[1:]' % (lag, E), '(-%s / np.log(%s))[1:]' % (lag, E), 'np.negative(%s) / np.log(%s[1:])' % (lag, E),
+                 '-np.divide(%s, np.log(%s[1:]))' % (lag, E), 'np.divide(-%s, np.log(%s[1:]))' % (lag, E)]
+        others = {x.id for x in tt.elts[1:] if isinstance(x, ast.Name)}
+        verdict = classify(fi.expand(val), forms, scope={lag, E} | others)
+        if verdict[0] == 'match':
+            leaves = leaf_names(fi, val)
+            if not all(defs_of(fi, n) == ({'PARAM'} if n.id == lag else {se}) for n in leaves if n.id in (lag, E)):
+                verdict = ('far', 0, None)
+        ck.decide(verdict, rule + '.formula', mod, anchor or rets[0], Q, 'returns %s' % _short(fi.xu(val)),
+                  't_k = -lag / log(lambda_k) for k >= 1 (stationary eigenvalue skipped)',
+                  'implied timescales must be -lag_time / np.log(e_vals[1:])')
+    # implied_timescales forwards its arguments to the parameter of the same meaning
     fn2 = mod.func('implied_timescales')
-    cs = [c for c in calls_in(fn2) if call_name(c) == 'calc_imp_times']
-    ok = len(cs) == 1 and [u(a) for a in cs[0].args] == ['assigns', 't', 'n_states', 'n_times', 'method', 'sliding_window', 'trim']
-    ck.check(ok, rule + '.pipeline', mod, cs[0] if cs else fn2, 'implied_timescales', u(cs[0]) if cs else '?',
-             'arguments forwarded positionally in the callee\'s order',
-             'calc_imp_times(assigns, lag_time, n_states, n_times, method, sliding_window, trim) must receive its arguments in that order')
+    ck.analysed(mod, fn2)
+    f2 = finfo(mod, fn2)
+    cs = [c for c in calls_in(fn2) if _last(c) == 'calc_imp_times']
+    b2 = bind_args(cs[0], ps) if len(cs) == 1 else None
+    if b2 is None:
+        ck.missing(rule + '.pipeline', 'calc_imp_times call in implied_timescales')
+        return
+    c = cs[0]
+    p2 = params(fn2)
+    lags = p2[1] if len(p2) > 1 else 'lag_times'
+    # the lag argument iterates over lag_times
+    lv = b2.get(lag)
+    lag_ok = None
+    if isinstance(lv, ast.Name):
+        n = c
+        while n is not None and n is not fn2:
+            n = mod.parent.get(n)
+            gens = n.generators if isinstance(n, (ast.ListComp, ast.GeneratorExp, ast.SetComp)) else []
+            for g in gens:
+                if isinstance(g.target, ast.Name) and g.target.id == lv.id:
+                    lag_ok = is_param(f2, g.iter, lags) and not g.ifs
+            if isinstance(n, ast.For) and isinstance(n.target, ast.Name) and n.target.id == lv.id and lag_ok is None:
+                lag_ok = is_param(f2, n.iter, lags) and defs_of(f2, lv) == {n}
+            if lag_ok is not None:
+                break
+    same = {assigns: 'assigns', meth: 'method', slw: 'sliding_window', trim: 'trim'}
+    a2 = p2[0] if p2 else 'assigns'
+    wrong, unknown = [], []
+    for k in ps[:7]:
+        got = b2.get(k)
+        if got is None:
+            wrong.append('%s=MISSING' % k)
+        elif k == lag:
+            if lag_ok is None:
+                unknown.append('%s=%s' % (k, _short(u(got), 40)))
+            elif not lag_ok:
+                wrong.append('%s=%s' % (k, _short(u(got), 40)))
+        elif k in same:
+            if not (same[k] in p2 and is_param(f2, got, same[k])):
+                wrong.append('%s=%s' % (k, _short(f2.xu(got), 40)))
+        else:
+            # n_states / n_times: the local of implied_timescales with the same
+            # meaning (n_states = assigns.max() + 1; n_times is the clipped argument)
+            local = {nst: 'n_states', ntm: 'n_times'}.get(k, k)
+            g = peel(f2, got)
+            if isinstance(got, ast.Name) and got.id == local or isinstance(g, ast.Name) and g.id == local:
+                continue
+            if k == nst and classify(f2.expand(got), ['%s.max() + 1' % a2, '1 + %s.max()' % a2, 'int(%s.max()) + 1' % a2,
+                                                      'int(%s.max() + 1)' % a2], scope={a2})[0] == 'match':
+                continue
+            if isinstance(g, ast.Name) and (g.id in p2 or g.id in ('n_states', 'n_times') or (isinstance(lv, ast.Name) and g.id == lv.id)):
+                wrong.append('%s=%s' % (k, g.id))
+            else:
+                unknown.append('%s=%s' % (k, _short(f2.xu(got), 40)))
+    if unknown and not wrong:
+        ck.missing(rule + '.pipeline', 'arguments of %s not recognised: %s' % (_short(c), ', '.join(unknown)))
+    else:
+        ck.check(not wrong, rule + '.pipeline', mod, c, 'implied_timescales', u(c),
+                 'arguments forwarded to the parameters of the same meaning',
+                 'calc_imp_times(assigns, lag_time, n_states, n_times, method, sliding_window, trim) must receive each argument in the '
+                 'position of the same meaning (wrong: %s)' % ', '.join(wrong))
 
 
 def d5_ensemble(ck):
@@ -225,57 +937,207 @@ def d5_ensemble(ck):
     mod = ck.repo.mod(SD)
     fn = mod.func('synthetic_ensemble')
     ck.analysed(mod, fn)
-    steps = [s for s in walk_local(fn) if isinstance(s, ast.Assign) and u(s.targets[0]) == 'p'
-             and isinstance(s.value, ast.Call) and isinstance(s.value.func, ast.Attribute)]
-    adv = [s for s in steps if s.value.func.attr in ('rmatvec', 'matvec', 'dot')]
-    ok = len(adv) >= 1 and all(s.value.func.attr == 'rmatvec' and u(s.value.args[0]) == 'p' and
-                               u(s.value.func.value) == 'T_op' for s in adv)
-    ck.check(ok, rule + '.left', mod, adv[0] if adv else fn, 'synthetic_ensemble', '; '.join(u(s) for s in adv),
-             'populations advance by LEFT multiplication p <- p T (rmatvec)',
-             'a population (row) vector is propagated as p T: T_op.rmatvec(p); matvec computes T p, which '
-             'propagates observables, not populations')
+    fi = finfo(mod, fn)
+    Q = 'synthetic_ensemble'
+    ps = params(fn)
+    if len(ps) < 3:
+        ck.missing(rule, 'signature synthetic_ensemble(T, init_pops, n_steps, ...)')
+        return
+    T, init_pops, n_steps = ps[:3]
+    # roles: (final populations, trajectory) are returned
+    rets = [r for r in returns_of(fn) if r.value is not None]
+    rv = peel(fi, rets[0].value) if len(rets) == 1 else None
+    if not (isinstance(rv, ast.Tuple) and len(rv.elts) == 2 and all(isinstance(e, ast.Name) for e in rv.elts)):
+        ck.missing(rule, '`return <populations>, <trajectory>` in synthetic_ensemble')
+        return
+    P, OBS = rv.elts[0].id, rv.elts[1].id
+    # advance statements: P = <op>.<f>(P) / P = P @ M / P = M @ P  inside a loop
+    loops = [l for l in walk_local(fn) if isinstance(l, (ast.For, ast.While))]
+
+    def loop_of(s):
+        n = mod.parent.get(s)
+        while n is not None and n is not fn:
+            if isinstance(n, (ast.For, ast.While)):
+                return n
+            n = mod.parent.get(n)
+        return None
+    adv = [s for s in assigns_to(fn, P) if isinstance(s, ast.Assign) and loop_of(s) is not None and P in names_loaded(s.value)]
+    if not adv:
+        ck.missing(rule + '.left', 'statement that advances the populations `%s` inside a loop' % P)
+        return
+    ops = set()
+    verdicts = []
     for s in adv:
-        loop = mod.parent.get(s)
-        ok = isinstance(loop, ast.For) and u(loop.iter) == 'range(n_steps - 1)'
-        ck.check(ok, rule + '.steps', mod, loop if isinstance(loop, ast.For) else s, 'synthetic_ensemble',
-                 u(loop.iter) if isinstance(loop, ast.For) else u(s), 'n_steps - 1 multiplications (the start counts as step one)',
-                 'the ensemble must be advanced exactly n_steps - 1 times')
-    init = [s for s in assigns_to(fn, 'p') if isinstance(s, ast.Assign) and s not in adv]
-    ok = len(init) == 1 and u(init[0].value) in ('init_pops.copy()', 'np.array(init_pops)', 'np.copy(init_pops)')
-    ck.check(ok, rule + '.copy', mod, init[0] if init else fn, 'synthetic_ensemble', u(init[0]) if init else 'p',
-             'starts from a copy of the initial populations', 'the propagation must start from a copy of init_pops')
-    # the collected trajectory must not be forced into the dtype of the
-    # (possibly integer / float32) initial populations
-    for s in walk_local(fn):
-        if isinstance(s, ast.Assign) and u(s.targets[0]) == 'observations' and isinstance(s.value, ast.Call) and \
-                call_name(s.value) in ('np.empty', 'np.zeros', 'np.ones', 'np.full', 'np.empty_like', 'np.zeros_like'):
-            dt = kwarg(s.value, 'dtype')
-            bad = (dt is not None and '.dtype' in u(dt)) or call_name(s.value) in ('np.empty_like', 'np.zeros_like')
-            ck.check(not bad, rule + '.collect', mod, s, 'synthetic_ensemble', u(s),
+        v = fi.expand(s.value, stop=(P,))
+        if isinstance(v, ast.Call) and isinstance(v.func, ast.Attribute) and v.func.attr in ('rmatvec', 'matvec', 'dot', 'rmatmat', 'matmat') \
+                and len(v.args) == 1 and not v.keywords:
+            recv, arg, f = s.value.func.value if isinstance(s.value, ast.Call) and isinstance(s.value.func, ast.Attribute) else None, v.args[0], v.func.attr
+            if recv is None:
+                verdicts.append('far')
+            elif u(arg) == P and f == 'rmatvec' and isinstance(recv, ast.Name):
+                ops.add(recv)
+                verdicts.append('match')
+            elif u(recv) == P and f == 'dot' and is_param(fi, v.args[0], T):
+                verdicts.append('match')        # p.dot(T) = p T
+            elif u(arg) == P and f in ('matvec', 'dot', 'matmat'):
+                verdicts.append('near')         # T p
+            else:
+                verdicts.append('far')
+        elif isinstance(v, ast.BinOp) and isinstance(v.op, ast.MatMult):
+            if u(v.left) == P and u(v.right) == T and params_intact(fi, s.value, {T}):
+                verdicts.append('match')
+            elif u(v.right) == P:
+                verdicts.append('near')
+            else:
+                verdicts.append('far')
+        else:
+            verdicts.append('far')
+    ck.decide(_worst(*verdicts), rule + '.left', mod, adv[0], Q, '; '.join(u(s) for s in adv),
+              'populations advance by LEFT multiplication p <- p T (rmatvec)',
+              'a population (row) vector is propagated as p T: T_op.rmatvec(p); matvec computes T p, which '
+              'propagates observables, not populations')
+    for s in adv:
+        loop = loop_of(s)
+        if not isinstance(loop, ast.For):
+            ck.missing(rule + '.steps', 'trip count of the loop around %s' % _short(s))
+            continue
+        verdict = classify(fi.expand(loop.iter), ['range(%s - 1)' % n_steps, 'range(1, %s)' % n_steps, 'range(0, %s - 1)' % n_steps,
+                                                  'range(2, %s + 1)' % n_steps, 'range(%s - 1, 0, -1)' % n_steps,
+                                                  'range(1, %s, 1)' % n_steps, 'range(0, %s - 1, 1)' % n_steps], scope={n_steps})
+        if verdict[0] == 'match' and not params_intact(fi, loop.iter, {n_steps}):
+            verdict = ('far', 0, None)
+        nested = loop_of(loop) is not None
+        if nested:
+            verdict = ('far', 0, None)
+        ck.decide(verdict, rule + '.steps', mod, loop, Q, u(loop.iter), 'n_steps - 1 multiplications (the start counts as step one)',
+                  'the ensemble must be advanced exactly n_steps - 1 times')
+    # start from a copy of the initial populations
+    init = [s for s in assigns_to(fn, P) if isinstance(s, ast.Assign) and s not in adv]
+    if len(init) != 1 or fi.def_value(init[0], P) is None:
+        ck.missing(rule + '.copy', 'single initialisation of the populations `%s` (found %d)' % (P, len(init)))
+    else:
+        verdict = classify(fi.expand(fi.def_value(init[0], P)),
+                           ['%s.copy()' % init_pops, 'np.array(%s)' % init_pops, 'np.copy(%s)' % init_pops,
+                            'np.array(%s, copy=True)' % init_pops, 'np.array(%s, dtype=float)' % init_pops,
+                            '%s.astype(float)' % init_pops, 'np.array(%s, dtype=np.float64)' % init_pops,
+                            '%s.astype(np.float64)' % init_pops, '%s[:].copy()' % init_pops, '%s + 0' % init_pops, '1 * %s' % init_pops],
+                           scope={init_pops})
+        if verdict[0] == 'match' and not (params_intact(fi, init[0].value, {init_pops}) and all(fi.cfg.dominates(init[0], s) for s in adv)):
+            verdict = ('far', 0, None)
+        ck.decide(verdict, rule + '.copy', mod, init[0], Q, u(init[0]),
+                  'starts from a copy of the initial populations', 'the propagation must start from a copy of init_pops')
+    # the operator wraps T itself (not its transpose)
+    if ops:
+        alts, anchor = [], None
+        for o in ops:
+            for d in defs_of(fi, o):
+                if d in ('PARAM', 'UNBOUND') or fi.def_value(d, o.id) is None:
+                    alts.append(None)
+                    continue
+                anchor = anchor or d
+                alts.append(fi.def_value(d, o.id))
+        vs, shown = [], []
+        for a in alts:
+            if not (isinstance(a, ast.Call) and _last(a) == 'aslinearoperator' and len(a.args) == 1 and not a.keywords):
+                vs.append('far')
+                shown.append(_short(a) if a is not None else '?')
+                continue
+            shown.append(u(a))
+            branches = [fi.expand(a.args[0])]
+            while any(isinstance(b, ast.IfExp) for b in branches):
+                branches = [x for b in branches for x in ((b.body, b.orelse) if isinstance(b, ast.IfExp) else (b,))]
+            for b in branches:
+                v = classify(b, [T, '%s.tocsr()' % T, '%s.tocsc()' % T, '%s.tocoo()' % T, '%s.toarray()' % T, 'np.asarray(%s)' % T,
+                                 '%s.asformat(__)' % T, 'scipy.sparse.csr_matrix(%s)' % T], scope={T})[0]
+                if v == 'match' and not params_intact(fi, a.args[0], {T}):
+                    v = 'far'
+                vs.append(v)
+        ck.decide(_worst(*vs) if vs else 'far', rule + '.operator', mod, anchor or fn, Q, '; '.join(dict.fromkeys(shown)),
+                  'the operator is T itself (not its transpose)', 'T_op must wrap T')
+    # the trajectory is collected per step, in a floating point container
+    allocs = ('np.empty', 'np.zeros', 'np.ones', 'np.full', 'np.empty_like', 'np.zeros_like', 'np.ones_like', 'np.full_like')
+    odefs = [s for s in assigns_to(fn, OBS) if isinstance(s, ast.Assign)]
+    n_alloc = 0
+    for s in odefs:
+        v = fi.def_value(s, OBS)
+        if isinstance(v, ast.Call) and call_name(v) in allocs:
+            n_alloc += 1
+            like = call_name(v).endswith('_like')
+            dt = kwarg(v, 'dtype')
+            if dt is None and not like:
+                pos = 2 if call_name(v) == 'np.full' else 1
+                dt = v.args[pos] if len(v.args) > pos else None
+            src = fi.expand(dt, stop=(P,)) if dt is not None else None
+            if like and dt is None:
+                inherits = True
+            elif src is None:
+                inherits = False        # numpy default: float64
+            elif isinstance(src, ast.Attribute) and src.attr == 'dtype':
+                inherits = True
+            elif any(isinstance(x, ast.Attribute) and x.attr == 'dtype' for x in ast.walk(src)):
+                ck.missing(rule + '.collect', 'element type of the trajectory buffer not recognised: %s' % _short(s))
+                continue
+            else:
+                inherits = False
+            ck.check(not inherits, rule + '.collect', mod, s, Q, u(s),
                      'trajectory buffer is floating point regardless of the dtype of init_pops',
                      'the buffer that collects the propagated populations takes its dtype from the initial populations: '
                      'rmatvec returns float64, so for integer (one-hot) or float32 start vectors every propagated row is '
                      'silently cast (truncated to zeros / rounded)')
-    fin = [s for s in walk_local(fn) if isinstance(s, ast.Assign) and u(s.targets[0]) == 'observations' and u(s.value) == 'np.array(observations)']
-    lists = [s for s in walk_local(fn) if isinstance(s, ast.Assign) and u(s.targets[0]) == 'observations' and isinstance(s.value, ast.List)]
-    allocs = [s for s in walk_local(fn) if isinstance(s, ast.Assign) and u(s.targets[0]) == 'observations' and isinstance(s.value, ast.Call) and call_name(s.value) != 'np.array']
-    ck.check((len(fin) == 1 and len(lists) == 2) or bool(allocs), rule + '.collect', mod, fin[0] if fin else fn, 'synthetic_ensemble',
-             '%d list starts, %d final conversions, %d preallocations' % (len(lists), len(fin), len(allocs)),
-             'every step is collected (list + final np.array, or a preallocated buffer)', 'the trajectory of populations/observables is not collected per step')
-    ops = [s for s in assigns_to(fn, 'T_op') if isinstance(s, ast.Assign)]
-    ok = bool(ops) and all('aslinearoperator(T' in u(s.value) for s in ops)
-    ck.check(ok, rule + '.operator', mod, ops[0] if ops else fn, 'synthetic_ensemble', '; '.join(u(s) for s in ops),
-             'the operator is T itself (not its transpose)', 'T_op must wrap T')
+    # every advance is followed, in the same iteration, by a record into the trajectory
+    recorded, rotated = 0, 0
+    for s in adv:
+        loop = loop_of(s)
+        recs = []
+        for x in ast.walk(loop):
+            if isinstance(x, ast.Call) and isinstance(x.func, ast.Attribute) and x.func.attr == 'append' and u(x.func.value) == OBS \
+                    and x.args and P in names_loaded(fi.expand(x.args[0], stop=(P,))):
+                recs.append(fi.stmt(x))
+        for st, t in subscript_stores(loop, OBS):
+            if getattr(st, 'value', None) is not None and P in names_loaded(fi.expand(st.value, stop=(P,))):
+                recs.append(st)
+        recs = [r for r in recs if r is not None]
+        if any(fi.cfg.reachable(s, r, avoiding=[loop]) for r in recs):
+            recorded += 1
+        elif recs:
+            rotated += 1        # recorded before the advance: a rotated loop, not decided here
+    lists = [s for s in odefs if isinstance(fi.def_value(s, OBS), (ast.List, ast.ListComp))]
+    fin = [s for s in odefs if isinstance(fi.def_value(s, OBS), ast.Call) and _cx(fi.def_value(s, OBS)) in
+           CS('np.array(%s)' % OBS, 'np.asarray(%s)' % OBS, 'np.stack(%s)' % OBS, 'np.vstack(%s)' % OBS)]
+    # a list start holds the state before the first step
+    starts_ok = all(isinstance(fi.def_value(s, OBS), ast.List) and len(fi.def_value(s, OBS).elts) == 1 and
+                    P in names_loaded(fi.expand(fi.def_value(s, OBS).elts[0], stop=(P,))) for s in lists)
+    shown = '%d of %d advances recorded; %d list starts, %d final conversions, %d preallocations' % (
+        recorded, len(adv), len(lists), len(fin), n_alloc)
+    if rotated or not starts_ok or not odefs:
+        ck.missing(rule + '.collect', 'construction of the trajectory `%s` not recognised (%s%s)' % (
+            OBS, shown, '; a state is recorded BEFORE it is advanced' if rotated else ''))
+    else:
+        ok = recorded == len(adv) and (n_alloc > 0 or (len(lists) >= 1 and len(fin) >= 1))
+        ck.check(ok, rule + '.collect', mod, fin[0] if fin else rets[0], Q, shown,
+                 'every step is collected (list + final np.array, or a preallocated buffer)',
+                 'the trajectory of populations/observables is not collected per step')
+
+
+def _guarded(ck, rule, f, *args):
+    """An unexpected shape that makes a rule raise is an unrecognised
+    construct (analysis incomplete), not an analysis error."""
+    try:
+        f(ck, *args)
+    except AnalysisIncomplete:
+        raise
+    except (AttributeError, IndexError, KeyError, TypeError, ValueError) as e:
+        ck.missing(rule, 'rule could not analyse an unfamiliar shape: %r' % (e,))
 
 
 def check(ck):
     mod = ck.repo.mod(MS)
-    d1_constructor(ck, mod)
-    d2_pipeline(ck, mod)
-    d3_saveload(ck, mod)
+    _guarded(ck, 'C16.D1.constructor', d1_constructor, mod)
+    _guarded(ck, 'C16.D2.pipeline', d2_pipeline, mod)
+    _guarded(ck, 'C16.D3.save-load', d3_saveload, mod)
     check_spectrum(ck, 'C16.D4')
-    d5_timescales(ck)
-    d5_ensemble(ck)
+    _guarded(ck, 'C16.D5.timescales', d5_timescales)
+    _guarded(ck, 'C16.D5.ensemble', d5_ensemble)
     check_no_arg_mutation(ck, 'C16.D6.inputs-unmodified', [
         (MS, 'MSM.fit'), (TS, 'implied_timescales'), (TS, 'calc_imp_times'),
         (SD, 'synthetic_ensemble'), (TM, 'eigenspectrum')])
